@@ -370,13 +370,36 @@ class Gen:
         b = world.gen_probe_buffer(rng, names, max_probes=rng.randint(3, 7))
         op = {'op': 'query', 'code': b.text, 'path': None if rng.random() < 0.5 else 'probe_buf.py',
               'project': self.project, 'probes': b.probes}
+        # the project-wide file scan (get_references, rename, Project.search) reads files on its own
+        tops_now = [d for d in self.mods if '.' not in d and self.mods[d]['kind'] != 'namespace']
+        if tops_now and rng.random() < 0.6:
+            m = rng.choice(tops_now)
+            lines = b.text.split('\n')
+            if ('import %s' % m) in lines:
+                lines.insert(len(lines) - 1, '%s.func(1)' % m)
+                op['code'] = '\n'.join(lines)
+                # the inserted line is the last but one; positions of earlier probes are unchanged
+                # unless the buffer ended in an incomplete statement (then it moved down by one)
+                ln = len(lines) - 1
+                for p in op['probes']:
+                    if p.get('l') == ln:
+                        p['l'] = ln + 1
+                op['probes'].append({'m': 'get_references', 'l': ln, 'c': len(m) + 2})
         if self.policy == 'monotone' or rng.random() < 0.5:
             self.advance(rng.choice([0, MS, 20 * MS, SEC, 4 * SEC]))
         self.ops.append(op)
-        if rng.random() < 0.2:
-            self.ops.append({'op': 'project_search', 'q': rng.choice(['func', 'Klass', 'VALUE', 'fn_', 'NAME_']),
+        if rng.random() < 0.4:
+            # names that exist only in the CURRENT version of a module are the sharpest probes
+            cands = ['func', 'Klass', 'VALUE']
+            for d, m in self.mods.items():
+                if m['kind'] != 'namespace':
+                    t = world.tag_of(d, m['ver'])
+                    cands += ['NAME_%s' % t, 'NAME_%s' % t]
+                    if m['shape'].get('extra_fn'):
+                        cands.append('fn_%s' % t)
+            self.ops.append({'op': 'project_search', 'q': rng.choice(cands),
                              'all_scopes': rng.random() < 0.5, 'project': self.project,
-                             'complete': rng.random() < 0.3})
+                             'complete': rng.random() < 0.2})
 
 
 def gen_case(seed, tier, i):
